@@ -1,4 +1,5 @@
 import Cjet.Lemmas.DaemonC07Base
+import Cjet.Lemmas.Alloc
 /-!
 # C07 — all memory, descriptors and timers are reclaimed
 
@@ -217,5 +218,109 @@ theorem term_releases_all (cfg : Config) (us : List User) (ops : List Op) (orc :
 
 example : let r := run {} {} (exOps ++ termOps exRun.1 (fun _ => {}))
     r.1.nextTimer = 2 ∧ destroyed r.2.flatten = [0, 1] := by decide +kernel
+
+/-! ## B. the allocator (`src/alloc.c`, model `Cjet.Alloc`)
+
+`P : Params` is the configuration (cap in KByte, the factor 1024, sizeof(size_t)); `P.Ok` says the
+cap is at most half the address space — true for the tree's configuration (`default_params_ok`);
+`OsOk P op` is the assumption about the operating system: a request of 2^63 bytes or more is never
+granted.  All arithmetic of the model is size_t arithmetic (modulo 2^64). -/
+
+section AllocPart
+open Cjet.Alloc
+
+/-- the cap of the unchanged tree (generated from cmake/defaults.cmake) satisfies `Params.Ok` -/
+theorem default_params_ok : defaultParams.Ok := by decide
+
+def exAllocOps : List Alloc.Op :=
+  [.malloc 10 true, .calloc 3 5 true, .malloc 100 false, .malloc 20971520 true, .free 0, .free 7]
+
+example : (∀ op ∈ exAllocOps, OsOk defaultParams op) ∧
+    (Alloc.run defaultParams Alloc.init exAllocOps).2 =
+      [(.ptr 0, 18), (.ptr 1, 41), (.null, 41), (.null, 41), (.freed, 23), (.nofree, 23)] := by
+  decide +kernel
+
+/-- `cap_respected`: after every operation of every sequence the accounted heap is at most the
+    cap (`cjet_get_alloc_size() ≤ CONFIG_MAX_HEAPSIZE_IN_KBYTE * 1024`). -/
+theorem cap_respected (P : Params) (hP : P.Ok) (ops : List Alloc.Op) (hos : ∀ op ∈ ops, OsOk P op) :
+    (∀ o ∈ (Alloc.run P Alloc.init ops).2, o.2 ≤ P.capBytes) ∧
+    (Alloc.run P Alloc.init ops).1.allocated ≤ P.capBytes :=
+  ⟨(inv_run hP ops (inv_init P) hos).2, (inv_run hP ops (inv_init P) hos).1.cap⟩
+
+/-- `accounting_exact`: the counter is the sum of the header words of the live blocks — each of
+    them the `alloc_size` = request + sizeof(size_t) of its allocation (`granted_block`) — and the
+    live blocks have pairwise different ids. -/
+theorem accounting_exact (P : Params) (hP : P.Ok) (ops : List Alloc.Op) (hos : ∀ op ∈ ops, OsOk P op) :
+    let s := (Alloc.run P Alloc.init ops).1
+    s.allocated = (s.live.map (·.2)).sum ∧ (s.live.map (·.1)).Nodup :=
+  ⟨(inv_run hP ops (inv_init P) hos).1.acc, (inv_run hP ops (inv_init P) hos).1.nodup⟩
+
+/-- a granted request appends one block whose header word is request + header (when that sum
+    does not wrap) and adds exactly that to the counter (modulo 2^64 — no wrap under `OsOk`) -/
+theorem granted_block (P : Params) (s : St) (bytes : Nat) (osOk : Bool)
+    (h : (alloc P s bytes osOk).2 ≠ .null) (hnw : bytes % W + P.hdr < W) :
+    (alloc P s bytes osOk).2 = .ptr s.next ∧
+    (alloc P s bytes osOk).1.live = s.live ++ [(s.next, bytes % W + P.hdr)] ∧
+    (alloc P s bytes osOk).1.allocated = (s.allocated + (bytes % W + P.hdr)) % W := by
+  rw [alloc_granted h]
+  simp [allocSize, Nat.mod_eq_of_lt hnw]
+
+example : (alloc defaultParams {} 10 true).2 ≠ .null ∧ 10 % W + defaultParams.hdr < W := by decide +kernel
+
+/-- `refusal_changes_nothing`: a refused allocation (cap reached or OS failure) and a free of
+    nothing leave the counter and the live blocks exactly as they were. -/
+theorem refusal_changes_nothing (P : Params) (s : St) (op : Alloc.Op)
+    (h : (Alloc.step P s op).2 = .null ∨ (Alloc.step P s op).2 = .nofree) : (Alloc.step P s op).1 = s := by
+  cases op with
+  | malloc size osOk =>
+    rcases h with h | h
+    · exact alloc_null h
+    · exfalso
+      by_cases hn : (alloc P s (size % W) osOk).2 = .null
+      · rw [show Alloc.step P s (.malloc size osOk) = alloc P s (size % W) osOk from rfl, hn] at h; cases h
+      · rw [show Alloc.step P s (.malloc size osOk) = alloc P s (size % W) osOk from rfl, alloc_granted hn] at h
+        cases h
+  | calloc nmemb size osOk =>
+    rcases h with h | h
+    · exact alloc_null h
+    · exfalso
+      by_cases hn : (alloc P s (((nmemb % W) * (size % W)) % W) osOk).2 = .null
+      · rw [show Alloc.step P s (.calloc nmemb size osOk) = alloc P s (((nmemb % W) * (size % W)) % W) osOk from rfl,
+          hn] at h; cases h
+      · rw [show Alloc.step P s (.calloc nmemb size osOk) = alloc P s (((nmemb % W) * (size % W)) % W) osOk from rfl,
+          alloc_granted hn] at h
+        cases h
+  | free id =>
+    rcases h with h | h
+    · exfalso
+      have : (Alloc.free s id).2 = .null := h
+      unfold Alloc.free at this
+      split at this <;> cases this
+    · exact free_nofree h
+
+example : (Alloc.step defaultParams {} (.malloc 20971520 true)).2 = .null := by decide +kernel
+
+/-- the cap test exactly as written: a request is refused iff
+    `allocated_memory + alloc_size > CONFIG_MAX_HEAPSIZE_IN_KBYTE * 1024` (size_t arithmetic) or
+    the underlying malloc/calloc fails -/
+theorem refusal_iff (P : Params) (s : St) (bytes : Nat) (osOk : Bool) :
+    (alloc P s bytes osOk).2 = .null ↔
+      ((s.allocated + allocSize P bytes) % W > P.capBytes ∨ osOk = false) :=
+  alloc_null_iff P s bytes osOk
+
+/-- `free_returns_to_baseline`: from the state after any sequence, freeing a list of ids that covers
+    every live block (any order; repetitions and dead ids are no-ops) brings the counter back to 0. -/
+theorem free_returns_to_baseline (P : Params) (hP : P.Ok) (ops : List Alloc.Op) (hos : ∀ op ∈ ops, OsOk P op)
+    (l : List Nat) (hcov : ∀ e ∈ (Alloc.run P Alloc.init ops).1.live, e.1 ∈ l) :
+    (freeAll (Alloc.run P Alloc.init ops).1 l).allocated = 0 ∧
+    (freeAll (Alloc.run P Alloc.init ops).1 l).live = [] := by
+  have := freeAll_empties (P := P) l (inv_run hP ops (inv_init P) hos).1 (fun i hi => by
+    obtain ⟨e, he, rfl⟩ := List.mem_map.mp hi
+    exact hcov e he)
+  exact ⟨this.2, this.1⟩
+
+example : ∀ e ∈ (Alloc.run defaultParams Alloc.init exAllocOps).1.live, e.1 ∈ [5, 1, 0] := by decide +kernel
+
+end AllocPart
 
 end Cjet.Props.C07
